@@ -284,6 +284,36 @@ def search_mixins(ctx, model, tsan_runs):
     return True
 
 
+def gen_snapshot(paths):
+    """text of the generated files right after this run's translators wrote them"""
+    out = {}
+    for p in paths:
+        try:
+            out[p] = open(p).read()
+        except OSError:
+            out[p] = None
+    return out
+
+
+def gen_overwritten(ctx, snap):
+    """coq/Gen/*.v is one shared location: another run (a check on another tree, tools/setup.sh) may rewrite a
+    generated file between this run's translation and its proof build, and the theorems are then checked against
+    somebody else's source.  Detected here and reported (no input blamed): the run is not conclusive."""
+    changed = [os.path.relpath(p, pv.ROOT) for p, old in snap.items() if old is not None and _read(p) != old]
+    if changed:
+        ctx.violation("gen-overwritten", {"kind": "environment", "files": changed}, False,
+                      "%s changed while this check was building its proofs (a concurrent run regenerated it from another tree): "
+                      "the obligations were not checked against the source of THIS run; run the check again" % ", ".join(changed))
+    return bool(changed)
+
+
+def _read(p):
+    try:
+        return open(p).read()
+    except OSError:
+        return None
+
+
 def run(ctx):
     ctx.level = "proof"
     gen_error = None
@@ -298,7 +328,9 @@ def run(ctx):
     except Exception as e:
         gen_error = ((gen_error + "; ") if gen_error else "") + "gen_mixins %s: %s" % (type(e).__name__, e)
     try:
+        snap = gen_snapshot([os.path.join(pv.COQ, "Gen", f) for f in ("SpinGen.v", "SpinDecls.v", "MixinsGen.v")])
         res = ctx.prove(extra_targets=["Extract/ExtractSpin.vo"])
+        gen_overwritten(ctx, snap)
         model = pv.build_ocaml("spin")
         impl = pv.build_harness("plain", "spin_drv", HARNESS_EXTRA)
         cases, dist = gen_cases(ctx)
